@@ -9,4 +9,6 @@ MUTANTS = [
     M('C09', 'print_dec_uint clears one flag less than it sets (seed C09_1)', 'flipjump/stl/bit/output.fj', "        .zero n*28/93+1, print_buffer_flag", "        .zero n*28/93, print_buffer_flag", 'C09.SCRATCH'),
     M('C09', 'print_hex_int keeps its sign flag between executions', 'flipjump/stl/bit/output.fj', "        .zero neg\n", "", 'C09.SCRATCH', count=2),
     M('C09', 'EQ hex input_dec clears one hex less of its digit register (the top hex is only ever read)', 'flipjump/stl/hex/input.fj', "        .zero n, digit\n", "        .zero n-1, digit\n", None, count=2),
+    M('C09', 'bit2hex n clears only the full hexes (seed C09_2)', 'flipjump/stl/casting.fj', "        hex.zero (n+3)/4, hex", "        hex.zero n/4, hex", 'C09.SCRATCH'),
+    M('C09', 'hex2bit no longer clears the destination bits', 'flipjump/stl/casting.fj', "        bit.zero 4, bit\n", "", 'C09.SCRATCH'),
 ]
